@@ -32,7 +32,11 @@ def _three(sx, op, same):
     import odxtools.exceptions as ex
     assert ex.strict_mode is True
     try:
-        s = _outcome(op)
+        try:
+            s = _outcome(op)
+        except Exception:  # noqa: BLE001  a foreign exception in strict mode is a C04/C05 matter;
+            sx.cover("strict-foreign")  # the mode switch has no obligation on such an input
+            return
         ex.strict_mode = False
         try:
             l = _outcome(op)
